@@ -112,6 +112,7 @@ int vp_harness_main(void) {
 #ifdef STL_OUT
     /* the STL members: the same units in a std::basic_string (copied out by the shim) */
     { uint8_t o[4 * SHAPE_K + 1]; uint64_t q = vp_to_std_string(&s, o, 4 * SHAPE_K); ASSERT(!vp_exc_pending && q == n, "to_std_string size"); for (uint64_t i = 0; i < 4 * SHAPE_K; i++) if (i < n) ASSERT(o[i] == sh[i], "to_std_string bytes"); }
+    { uint8_t o[4 * SHAPE_K + 1]; uint64_t q = vp_to_std_u8string(&s, o, 4 * SHAPE_K); ASSERT(!vp_exc_pending && q == n, "to_std_u8string size"); for (uint64_t i = 0; i < 4 * SHAPE_K; i++) if (i < n) ASSERT(o[i] == sh[i], "to_std_u8string bytes"); }
     { uint16_t o[2 * SHAPE_K + 1]; uint64_t q = vp_to_std_u16string(&s, o, 2 * SHAPE_K), k = 0; ASSERT(!vp_exc_pending, "to_std_u16string does not throw");
       for (int i = 0; i < SHAPE_K; i++) { uint32_t c = vals[i]; if (c <= 0xFFFF) { ASSERT(o[k] == (uint16_t)c, "to_std_u16string unit"); k++; } else { uint32_t w = c - 0x10000u; ASSERT(o[k] == (uint16_t)(0xD800 + w / 1024u) && o[k + 1] == (uint16_t)(0xDC00 + w % 1024u), "to_std_u16string surrogate pair"); k += 2; } }
       ASSERT(q == k, "to_std_u16string size"); }
@@ -129,6 +130,14 @@ int vp_harness_main(void) {
     vp_from_std_sv8(&s, p, n, mode);
 #elif ROUTE == 5
     vp_from_std_str8(&s, p, n, mode);
+#elif ROUTE == 6
+    vp_ctor_u8ptr(&s, p, n, mode);
+#elif ROUTE == 7
+    vp_from_utf8_c8(&s, p, n, mode);
+#elif ROUTE == 8
+    vp_from_std_u8sv(&s, p, n, mode);
+#elif ROUTE == 9
+    vp_from_std_u8str(&s, p, n, mode);
 #else
     { cbuf_t b; uint8_t tmp[N_ + 1]; S_mk_n(&b, tmp, -1, n); for (uint64_t i = 0; i < 4 * SHAPE_K; i++) if (i < n) b.f0[i] = sh[i];
 #if ROUTE == 2
